@@ -23,7 +23,7 @@ import CifModel.Props.C12Lex
   `endLine cs (j+1)`, the line on which the next token ends (the end of the text if there is none): `repAt_line` of
   Lemmas/DefectChars, from `Reach.det` and the walk over accepted chunks (`reach_chunks`, `reach_end`).  (`RepAt` does not say
   whether the next token had already been scanned when the report was made, hence the two lines; they coincide when both tokens
-  end on the same line.)  Classes without an `_at` form yet conclude `OneReport` (no line).
+  end on the same line.)  All 24 classes conclude `OneReportAt` (dup frame code: the same clause, written out).
 -/
 namespace CifModel.Props
 open CifModel CifModel.Model CifModel.Model.Lexer CifModel.Model.Parser CifModel.Spec.Lexical CifModel.Spec.Grammar
@@ -710,7 +710,7 @@ theorem C12_chars_invalid_blockcode (o : Opts) (cs : List Chunk) (pre post : Lis
     (hpre : wfBlocks o pre [] = true) (hn0 : noNul b.code = true) (hinv : isValidName false b.code = false)
     (hnew : ∀ x ∈ pre, o.norm x.code ≠ o.norm b.code) (hwb : wfElems o b.body [] [] = true)
     (hpost : wfBlocks o post bseen2 = true) (hseen2 : ∀ x ∈ pre ++ [b], o.norm x.code ∈ bseen2) :
-    OneReport o cs CIF_INVALID_BLOCKCODE (pre ++ [b] ++ post) := by
+    OneReportAt o cs CIF_INVALID_BLOCKCODE (pre ++ [b] ++ post) ((blocksToks pre).length + 0) := by
   obtain ⟨c, rest, hc, hfirst, hbom⟩ := H.first
   have hfu := fuel_doc H.ok
   have hfe := feeds_doc H hc
@@ -731,7 +731,7 @@ theorem C12_chars_invalid_blockcode (o : Opts) (cs : List Chunk) (pre post : Lis
     intro x y; induction x with
     | nil => rfl
     | cons a r ih => simp [blocksToks, ih]
-  obtain ⟨s', r, h, hr⟩ := C12_invalid_blockcode o H.store hmfd pre post b [] bseen2 _ f { log := [], cif := [] } hpre
+  obtain ⟨s', r, h, hr, hrep⟩ := C12_invalid_blockcode_at o H.store hmfd pre post b [] bseen2 _ f { log := [], cif := [] } hpre
     (by intro x hx; cases hx) hn0 hinv
     (by
       intro x hx
@@ -748,7 +748,11 @@ theorem C12_chars_invalid_blockcode (o : Opts) (cs : List Chunk) (pre post : Lis
     (by omega)
     (by simpa [hbt, blocksToks, List.append_assoc] using hfe)
   rw [← hf] at h
-  exact ⟨r, by rw [hc, parse_of_blocks o acceptAll c rest s' _ H.utf hfirst hbom h]; simp, hr⟩
+  refine ⟨r, by rw [hc, parse_of_blocks o acceptAll c rest s' _ H.utf hfirst hbom h]; simp, hr, ?_⟩
+  have hS : ({ scan := Scan.init (renderChunks cs), tok := none } : PS) = { scan := Scan.init (c :: rest), tok := none } := by rw [hc]
+  rw [← hS] at hrep
+  refine repAt_line o cs H.ok H.fit ?_ hrep
+  rw [ht, hbt, hbt]; simp only [List.length_append]; omega
 
 
 theorem blocksToks_append : ∀ (x y : List Block), blocksToks (x ++ y) = blocksToks x ++ blocksToks y
@@ -770,7 +774,8 @@ theorem C12_chars_dup_blockcode (o : Opts) (cs : List Chunk) (pa pb post : List 
     (hab : ∀ x ∈ pa ++ pb, o.norm x.code ≠ o.norm code)
     (hwb : wfItems o body (normNames o (denoteElems o.dia o.normKey b0.body [] []).2) = true)
     (hpost : wfBlocks o post bseen2 = true) (hseen2 : ∀ x ∈ pa ++ [b0] ++ pb, o.norm x.code ∈ bseen2) :
-    OneReport o cs CIF_DUP_BLOCKCODE (pa ++ [{ code := b0.code, body := b0.body ++ body.map .plain }] ++ pb ++ post) := by
+    OneReportAt o cs CIF_DUP_BLOCKCODE (pa ++ [{ code := b0.code, body := b0.body ++ body.map .plain }] ++ pb ++ post)
+      ((blocksToks (pa ++ [b0] ++ pb)).length + 0) := by
   obtain ⟨c, rest, hc, hfirst, hbom⟩ := H.first
   have hfu := fuel_doc H.ok
   have hfe := feeds_doc H hc
@@ -790,7 +795,7 @@ theorem C12_chars_dup_blockcode (o : Opts) (cs : List Chunk) (pa pb post : List 
     obtain ⟨y, hy, hcy⟩ := denote_code this
     simp only [codeIs, hcy, beq_eq_false_iff_ne, ne_eq]
     exact hab y hy
-  obtain ⟨s', r, h, hr⟩ := C12_dup_blockcode o H.store hmfd (pa ++ [b0] ++ pb) post code b0.code body [] bseen2
+  obtain ⟨s', r, h, hr, hrep⟩ := C12_dup_blockcode_at o H.store hmfd (pa ++ [b0] ++ pb) post code b0.code body [] bseen2
     (normNames o (denoteElems o.dia o.normKey b0.body [] []).2) _ f { log := [], cif := [] }
     (denote o.dia o.normKey pa) (denote o.dia o.normKey pb) (denoteElems o.dia o.normKey b0.body [] []).1
     (denoteElems o.dia o.normKey b0.body [] []).2 hpre (by intro x hx; cases hx) hcode hk
@@ -805,7 +810,9 @@ theorem C12_chars_dup_blockcode (o : Opts) (cs : List Chunk) (pa pb post : List 
     (by omega)
     (by simpa [List.append_assoc] using hfe)
   rw [← hf] at h
-  refine ⟨r, ?_, hr⟩
+  have hS : ({ scan := Scan.init (renderChunks cs), tok := none } : PS) = { scan := Scan.init (c :: rest), tok := none } := by rw [hc]
+  rw [← hS] at hrep
+  refine ⟨r, ?_, hr, repAt_line o cs H.ok H.fit (by rw [ht]; simp only [List.length_append]; omega) hrep⟩
   rw [hc, parse_of_blocks o acceptAll c rest s' _ H.utf hfirst hbom h]
   simp [denote, denoteBlock, denoteElems_append, denoteElems_map_plain]
 
@@ -1005,16 +1012,23 @@ theorem C12_chars_dup_framecode (o : Opts) (cs : List Chunk) (preB postB : List 
                         (denoteElems o.dia o.normKey pre [] []).2).1
                      (denoteElems o.dia o.normKey post (fa ++ .mk fc0 ffs (denoteItems o.dia o.normKey body fls) :: fb)
                         (denoteElems o.dia o.normKey pre [] []).2).2 :: denote o.dia o.normKey postB }
-      ∧ r.code = CIF_DUP_FRAMECODE := by
+      ∧ r.code = CIF_DUP_FRAMECODE
+      ∧ (r.line = endLine cs ((blocksToks preB).length + 1 + ((elemsToks pre).length + 0))
+          ∨ r.line = endLine cs ((blocksToks preB).length + 1 + ((elemsToks pre).length + 0) + 1)) := by
   have h4 := Lemmas.WriterChunks.szItems_toks body
-  obtain ⟨r, h, hr, _⟩ := elems_class H _ _ CIF_DUP_FRAMECODE (szItems body + body.length + 3) (fun _ _ => True)
+  obtain ⟨r, h, hr, hat⟩ := elems_class H _ _ CIF_DUP_FRAMECODE (szItems body + body.length + 3)
+    (fun s1 r => RepAt o s1 ((elemsToks pre).length + 0) r)
     (by simp only [List.length_cons, List.length_append, List.length_nil]; omega)
     (fun s1 w1 f hw1 hf hF1 => by
-      obtain ⟨s2, r, h1, h2, h3⟩ := C12_dup_framecode o _ bc H.fresh' H.mfd pre post fc fc0 body [] [] seen2 fseen2 bseen _ s1 f w1 [] fa fb ffs [] fls hw1 H.wfRun
+      obtain ⟨s2, r, h1, h2, h3, h4, _⟩ := C12_dup_framecode_at o _ bc H.fresh' H.mfd pre post fc fc0 body [] [] seen2 fseen2 bseen _ s1 f w1 [] fa fb ffs [] fls hw1 H.wfRun
         (nil_seen o) (by intro c hc; cases hc) hcode hk hsplit ha hb hwb hbseen hpk hpost hseen2 hfseen2 (by omega)
         (blockFollow_term (blocks_rest_head postB)) hF1
-      exact ⟨s2, r, h1, h2, h3, trivial⟩)
-  refine ⟨r, ?_, hr⟩
+      exact ⟨s2, r, h1, h2, h3, h4⟩)
+  have hline := line_of_block H.toTextOk (by
+    rw [H.hToks]
+    simp only [List.length_append, List.length_cons]
+    omega) hat
+  refine ⟨r, ?_, hr, hline⟩
   rw [h, pruneC_packed]
   exact allPacked_denoteElems o post seen2 fseen2 _ _ hpost
     (allPacked_denoteElems o pre [] [] [] [] H.wfRun (by intro l hl; cases hl))
